@@ -313,6 +313,10 @@ inline std::string read_file(std::string const& p)
 	return ss.str();
 }
 
+// ---- trace sink (C01): when set, worlds append their tap log and harnesses may add handler-level lines
+inline std::string*& trace_sink() { static std::string* p = nullptr; return p; }
+inline void trace_line(std::string const& s) { if (trace_sink()) { *trace_sink() += s; *trace_sink() += '\n'; } }
+
 struct Harness
 {
 	char const* name;
@@ -354,6 +358,19 @@ inline int kit_main(int argc, char** argv, Harness const& h)
 		else { std::fprintf(stderr, "unknown argument %s\n", a.c_str()); return 2; }
 	}
 	ctx.runner = h.run_case;
+	// generic trace: everything the worlds' taps saw + the verdict text
+	std::function<std::string(Case const&, Ctx&)> trace_fn = h.trace;
+	if (!trace_fn)
+	{
+		auto run = h.run_case;
+		trace_fn = [run](Case const& c, Ctx& cx) {
+			std::string t; trace_sink() = &t;
+			Verdict v = run(c, cx);
+			trace_sink() = nullptr;
+			t += "verdict ok=" + std::to_string(int(v.ok)) + " inconclusive=" + std::to_string(int(v.inconclusive)) + " nontrivial=" + std::to_string(int(v.nontrivial)) + " " + v.clause + " " + v.msg + "\n";
+			return t;
+		};
+	}
 
 	if (!o.skip_file.empty())
 	{
@@ -377,9 +394,9 @@ inline int kit_main(int argc, char** argv, Harness const& h)
 	if (!o.replay.empty())
 	{
 		Case c = Case::parse(read_file(o.replay));
-		if (!o.trace_out.empty() && h.trace)
+		if (!o.trace_out.empty())
 		{
-			std::string t = h.trace(c, ctx);
+			std::string t = trace_fn(c, ctx);
 			std::ofstream(o.trace_out) << t;
 		}
 		Verdict v = h.run_case(c, ctx);
@@ -402,7 +419,7 @@ inline int kit_main(int argc, char** argv, Harness const& h)
 		return 0;
 	}
 
-	if (!o.batch.empty() && h.trace)
+	if (!o.batch.empty())
 	{
 		std::vector<std::string> files;
 		{ std::ifstream f(o.batch); std::string l; while (std::getline(f, l)) if (!l.empty()) files.push_back(l); }
@@ -421,7 +438,7 @@ inline int kit_main(int argc, char** argv, Harness const& h)
 				// the odd ones leak on purpose (changes layout for the next cases)
 			}
 			Case c = Case::parse(read_file(p));
-			std::string t = h.trace(c, ctx);
+			std::string t = trace_fn(c, ctx);
 			std::string base = p.substr(p.find_last_of('/') + 1);
 			std::ofstream(o.trace_dir + "/" + base + ".trace") << t;
 			++n;
